@@ -566,6 +566,33 @@ func init() {
 			evals += c11Check(c, c11Synthetic(final), map[string]any{"synthetic": "400 lines", "final": final}, map[string]any{"synthetic_final": final})
 			configs++
 		}
+		// every byte value as the last (and as the first) byte of a rule line: three rules, the middle one varies,
+		// each with and without a terminator after the last line (the reference parse decides what is a rule)
+		for b := 1; b < 256; b++ {
+			if b == '\n' {
+				continue
+			}
+			for _, shape := range []string{"||edge.test/p%s", "%s||edge.test^", "0.0.0.0 host.edge.test a.x%s", "||edge.test/\xc3%s", "||edge.test/\xd0%s", "||edge.test/\xe2\x80%s"} {
+				line := fmt.Sprintf(shape, string([]byte{byte(b)}))
+				for _, final := range []string{"\n", ""} {
+					content := "||first.test^\n" + line + "\n0.0.0.0 last.edge.test" + final
+					if b%2 == 0 {
+						content = "||first.test^\n0.0.0.0 mid.edge.test\n" + line + final
+					}
+					evals += c11Check(c, []c11List{{0, content, false}}, map[string]any{"edge_byte": b, "shape": shape, "final": final}, map[string]any{"lists": []any{}})
+					configs++
+				}
+			}
+		}
+		// lines that look like something else than a rule and are rules
+		for _, line := range []string{"[::1]", "[2001:db8::1]", "[Adblock Plus 2.0]", "[x]", "##a", "a.b", "~", "$$", "|", "^", "@@", "!#if", "#%#", "0.0.0.0", "::", "localhost"} {
+			for _, final := range []string{"\n", ""} {
+				for _, content := range []string{line + final, "||first.test^\n" + line + final, line + "\n" + line + final} {
+					evals += c11Check(c, []c11List{{0, content, false}}, map[string]any{"odd_line": line, "final": final, "content": content}, map[string]any{"lists": []any{}})
+					configs++
+				}
+			}
+		}
 		c.Run.Set("corpus_rules_scanned_and_retrieved", corpusRules)
 		c.Run.Set("list_shape_assignments", int64(len(shapes)))
 		c.Run.Set("line_symbols", int64(len(syms)))
